@@ -403,17 +403,21 @@ func cmdRangeTable(rowsPath, outPath string) {
 		nIter, nCont, nSkip, nCtorFail, nOK := 0, 0, 0, 0, 0
 		staged := func(r RRow, vm bool, via string) {
 			ctor := ctorExpr(r.T, big.NewInt(int64(r.S)), big.NewInt(int64(r.E)), r.H, big.NewInt(int64(r.P)))
-			// needles predicted to fail by a named deviation run one per script: all of them in the thorough
-			// tier, a sample (both ends, the middle, three random ones) in the quick tier
+			// needles predicted to fail by a named deviation run one per script: a sample of them (both ends,
+			// the middle, random ones): 6 per row in the quick tier, 24 in the thorough tier
 			hint := map[string]bool{}
 			needles := all
 			if len(r.DevFail) > 0 {
 				for _, x := range r.DevFail {
 					hint[strconv.Itoa(x)] = true
 				}
-				if !thorough && len(r.DevFail) > 6 {
+				nKeep := 6
+				if thorough {
+					nKeep = 24
+				}
+				if len(r.DevFail) > nKeep {
 					keep := map[int]bool{r.DevFail[0]: true, r.DevFail[len(r.DevFail)-1]: true, r.DevFail[len(r.DevFail)/2]: true}
-					for len(keep) < 6 {
+					for len(keep) < nKeep {
 						keep[r.DevFail[rng.Intn(len(r.DevFail))]] = true
 					}
 					needles = nil
@@ -744,6 +748,71 @@ func needlesFor(t NT, c rcase, rng *rand.Rand) []*big.Int {
 	return out
 }
 
+// rangeCaseEvents observes one range on both engines and folds identical observations into one event.
+func rangeCaseEvents(wk *worker, t NT, c rcase, rng *rand.Rand) []REvent {
+	var evs []REvent
+	ctor := ctorExpr(t.Name, c.s, c.e, c.has, c.p)
+	needles := needlesFor(t, c, rng)
+	st := caseStep(c)
+	cnt := caseCount(c)
+	var obs []rangeObs
+	for _, eng := range engines {
+		obs = append(obs, wk.observeStaged(t.Name, maxMembers+8, ctor, needles, nil, eng.vm, 80))
+	}
+	seen := map[string]int{}
+	for oi, o := range obs {
+		k := obsKey(o)
+		if j, ok := seen[k]; ok {
+			evs[j].Via = append(evs[j].Via, engines[oi].via)
+			continue
+		}
+		ev := REvent{T: t.Name, Start: toZ(c.s), End: toZ(c.e), Has: c.has, Arg: toZ(c.p), Ctor: o.Ctor, Step: toZ(zero),
+			N: int(cnt.Int64()), Iter: o.Iter, Seq: []Z{}, Cs: []CObs{}, Via: []string{engines[oi].via}, Expr: ctor}
+		if o.Ctor == "ok" {
+			ev.Step = toZ(o.Step)
+			for _, x := range o.Seq {
+				ev.Seq = append(ev.Seq, toZ(x))
+			}
+			for i, x := range needles {
+				if o.Contains[i] == "skipped" {
+					continue
+				}
+				co := CObs{X: toZ(x), Out: o.Contains[i], Q: toZ(zero), M: toZ(zero)}
+				if o.Contains[i] == "true" || o.Contains[i] == "false" {
+					co.Out = "ok"
+					co.R = o.Contains[i] == "true"
+				}
+				if st.Sign() != 0 {
+					q, m := new(big.Int).QuoRem(new(big.Int).Sub(x, c.s), st, new(big.Int))
+					co.Q, co.M = toZ(q), toZ(m)
+				}
+				ev.Cs = append(ev.Cs, co)
+			}
+		}
+		seen[k] = len(evs)
+		evs = append(evs, ev)
+	}
+	return evs
+}
+
+// numfix rangeone <type> <start> <end> <has:0|1> <arg> <out.ndjson>: replay of one wide-type range
+func cmdRangeOne(tn, ss, es, hs, ps, outPath string) {
+	t := typeByName(tn)
+	s, ok1 := new(big.Int).SetString(ss, 10)
+	e, ok2 := new(big.Int).SetString(es, 10)
+	p, ok3 := new(big.Int).SetString(ps, 10)
+	if !ok1 || !ok2 || !ok3 {
+		util.Die("bad arguments")
+	}
+	evs := rangeCaseEvents(newWorker(), t, rcase{s, e, hs == "1", p}, rand.New(rand.NewSource(util.Seed())))
+	out := util.NewOut(outPath)
+	defer out.Close()
+	for i, ev := range evs {
+		ev.K = i + 1
+		out.Write(ev)
+	}
+}
+
 func obsKey(o rangeObs) string {
 	var sb strings.Builder
 	sb.WriteString(o.Ctor + "|")
@@ -798,47 +867,7 @@ func cmdRangeTrace(typesPath, outPath string, perType int) {
 		rng := rand.New(rand.NewSource(seed*31337 + int64(ui)))
 		var evs []REvent
 		for _, c := range u.cases {
-			ctor := ctorExpr(u.t.Name, c.s, c.e, c.has, c.p)
-			needles := needlesFor(u.t, c, rng)
-			st := caseStep(c)
-			cnt := caseCount(c)
-			var obs []rangeObs
-			for _, eng := range engines {
-				obs = append(obs, wk.observeStaged(u.t.Name, maxMembers+8, ctor, needles, nil, eng.vm, 80))
-			}
-			seen := map[string]int{}
-			for oi, o := range obs {
-				k := obsKey(o)
-				if j, ok := seen[k]; ok {
-					evs[j].Via = append(evs[j].Via, engines[oi].via)
-					continue
-				}
-				ev := REvent{T: u.t.Name, Start: toZ(c.s), End: toZ(c.e), Has: c.has, Arg: toZ(c.p), Ctor: o.Ctor, Step: toZ(zero),
-					N: int(cnt.Int64()), Iter: o.Iter, Seq: []Z{}, Cs: []CObs{}, Via: []string{engines[oi].via}, Expr: ctor}
-				if o.Ctor == "ok" {
-					ev.Step = toZ(o.Step)
-					for _, x := range o.Seq {
-						ev.Seq = append(ev.Seq, toZ(x))
-					}
-					for i, x := range needles {
-						if o.Contains[i] == "skipped" {
-							continue
-						}
-						co := CObs{X: toZ(x), Out: o.Contains[i], Q: toZ(zero), M: toZ(zero)}
-						if o.Contains[i] == "true" || o.Contains[i] == "false" {
-							co.Out = "ok"
-							co.R = o.Contains[i] == "true"
-						}
-						if st.Sign() != 0 {
-							q, m := new(big.Int).QuoRem(new(big.Int).Sub(x, c.s), st, new(big.Int))
-							co.Q, co.M = toZ(q), toZ(m)
-						}
-						ev.Cs = append(ev.Cs, co)
-					}
-				}
-				seen[k] = len(evs)
-				evs = append(evs, ev)
-			}
+			evs = append(evs, rangeCaseEvents(wk, u.t, c, rng)...)
 		}
 		results[ui] = evs
 		scriptsPer[ui] = wk.scripts
